@@ -169,6 +169,14 @@ func runC20(c *core.Ctx) {
 								ok = true
 							}
 						}
+						// DefPattern written out: PatternMatching{patterns: patterns}
+						if lit := c16lit(call.Call.Args[0]); lit != nil {
+							for k, v := range lit {
+								if core.FieldName(call.Call.Args[0].Type(), k) == "patterns" && core.Resolve(v) == ssa.Value(f.Params[1]) {
+									ok = true
+								}
+							}
+						}
 					}
 				}
 			}
